@@ -22,7 +22,8 @@ import WuffsVerif.Model.Interval
 namespace WuffsVerif.IntervalHeap
 open WuffsVerif.Interval
 
-abbrev Addr := Nat
+/-- an address is a natural number (a notation, so that `omega` and `simp` see `Nat`) -/
+scoped notation "Addr" => Nat
 
 /-- the heap: one integer cell per `big.Int` object ever allocated -/
 abbrev Heap := Array Int
